@@ -567,6 +567,30 @@ func runC16(c *h.Ctx) {
 			}
 		}
 	}
+	// every one-character string (U+0000..U+017F) and every two-character
+	// string over a small alphabet of word starts, digits, blanks and control
+	// characters, through the methods that parse strings: only the documented
+	// words and number spellings may be accepted
+	var shortStrs []string
+	for cp := rune(0); cp < 0x180; cp++ {
+		shortStrs = append(shortStrs, string(cp))
+	}
+	alpha2 := []rune{'t', 'T', 'f', 'F', 'y', 'n', 'N', 'o', 'O', '1', '0', ' ', 0x10, 0x11, 0x00, 0x14, 'e', '.', '-', '+', 0x2d ^ 0x20, 0x7f, 0x131, 0x212a}
+	for _, a := range alpha2 {
+		for _, b := range alpha2 {
+			shortStrs = append(shortStrs, string([]rune{a, b}))
+		}
+	}
+	for _, m := range []string{"boolean", "integer", "bigint", "number", "double", "decimal"} {
+		for _, t := range shortStrs {
+			idx++
+			if !c.Mine(idx) {
+				continue
+			}
+			q, _ := json.Marshal(t)
+			checkMethodGrid(c, m, string(q), false, idx%2 == 0)
+		}
+	}
 	c.SetExhaustive("11 methods x numeric grid (float64, json.Number, string, array) x other input kinds x lax/strict x silent/verbose; decimal (p,s) grid")
 	// keyvalue on plain inputs through the model
 	for i, t := range append(append([]string{}, c16Other...), `{"a":1,"b":{"c":2}}`, `[{"a":1},{"b":2}]`, `{"a":null}`) {
